@@ -1,7 +1,8 @@
 """C20 — descriptor hygiene: link-time wrapped close()/open ledger + /proc/self/fd at quiescence (plain build)."""
 from vf import gen, corecheck as cc, framework as fw, model_fd
 
-RULE = ("sources, hostile-lifetime, registry and mixed profiles with every mix of auto-close / duplicate / one-shot flags, modules "
+RULE = ("[M_SRC_DUP registrations are tracked too: auto-close is about the user's descriptor, the duplicate is the library's] "
+        "sources, hostile-lifetime, registry and mixed profiles with every mix of auto-close / duplicate / one-shot flags, modules "
         "leaving by stop, poison pill, refused start, self-deregistration and context teardown, one-shot events retained past their "
         "source, rejected registrations carrying auto-close. close(), pipe(), dup(), epoll_create1(), timerfd_create(), signalfd(), "
         "inotify_init1(), eventfd() and syscall(pidfd_open) are wrapped at link time for the library objects: every library close "
